@@ -6,6 +6,7 @@ import DesyncModel.Tables.FutureDrop
 import DesyncModel.Tables.Claim
 import DesyncModel.Lemmas
 import DesyncModel.Setters
+import DesyncModel.Inv.Holder
 
 namespace Desync.C07
 open Desync Gen
@@ -51,5 +52,63 @@ theorem take_once (s s' : State) (a f : Nat) (act : Act) (o : Obs) (fu : Fut)
   have hlt : f < s.futs.length := lt_of_getElem?_some hf
   obtain ⟨rfl, _⟩ := Prod.mk.inj (Option.some.inj hstep)
   exact ⟨{ fu with res := .returned }, by simp [State.setFut, State.setAct, hlt], rfl⟩
+
+/-- **A dropped poller hands its queue back** (defect F6, repaired by `fix:` e21933a): when a SchedulerFuture whose
+`draining` flag is set is dropped while its queue is waiting to be polled by exactly this future, the queue becomes `idle`
+in that critical section and the dropping thread goes on to reschedule it (`rqCs`) before it continues — so the
+operation, and everything queued behind it, runs in the background. -/
+theorem dropped_poller_hands_back (s s' : State) (a f : Nat) (k : Pc) (act : Act) (o : Obs) (fu : Fut) (v : JobQ)
+    (ha : s.acts[a]? = some act) (hc : act.child = none) (hpc : act.pc = .fdDrop f k)
+    (hf : s.futs[f]? = some fu) (hq : s.qs[fu.q]? = some v) (hd : fu.draining = true) (hst : v.state = .waitingForPoll f)
+    (hstep : stepAct s a = some (s', o)) :
+    s'.qs[fu.q]? = some { v with state := .idle } ∧ s'.acts[a]? = some { act with pc := .rqCs fu.q k } ∧ o = .csQ fu.q := by
+  unfold stepAct at hstep
+  simp only [ha, hc, hpc, hf, hq, hd, Option.isSome_none, Bool.false_eq_true, ↓reduceIte] at hstep
+  have hr : (futureDropDecide f v.state).2 = true := (futureDrop_spec f v.state).1.mpr hst
+  have hi : (futureDropDecide f v.state).1 = .idle := (futureDrop_spec f v.state).2.1 hr
+  simp only [hr, hi, ↓reduceIte] at hstep
+  obtain ⟨rfl, rfl⟩ := Prod.mk.inj (Option.some.inj hstep)
+  have hlt : fu.q < s.qs.length := lt_of_getElem?_some hq
+  refine ⟨by simp [hlt], ?_, rfl⟩
+  exact acts_goto_self _ (by simpa using ha)
+
+/-- in any other state of the queue, or when the future never drained it, the drop changes nothing (it may take the
+queue lock with a stale `draining` flag, but the state and the job list stay as they are) -/
+theorem drop_elsewhere_is_inert (s s' : State) (a f : Nat) (k : Pc) (act : Act) (o : Obs) (fu : Fut) (v : JobQ)
+    (ha : s.acts[a]? = some act) (hc : act.child = none) (hpc : act.pc = .fdDrop f k)
+    (hf : s.futs[f]? = some fu) (hq : s.qs[fu.q]? = some v) (hst : fu.draining = false ∨ v.state ≠ .waitingForPoll f)
+    (hstep : stepAct s a = some (s', o)) :
+    s'.qs = s.qs ∧ s'.jobs = s.jobs ∧ s'.acts[a]? = some { act with pc := k } := by
+  unfold stepAct at hstep
+  simp only [ha, hc, hpc, hf, hq, Option.isSome_none, Bool.false_eq_true, ↓reduceIte] at hstep
+  have hk : (s.goto a k).acts[a]? = some { act with pc := k } := acts_goto_self _ ha
+  by_cases hd : fu.draining = true
+  · have hne : v.state ≠ .waitingForPoll f := by
+      rcases hst with h | h
+      · simp [hd] at h
+      · exact h
+    have hr : (futureDropDecide f v.state).2 = false := by
+      cases h : (futureDropDecide f v.state).2 with
+      | false => rfl
+      | true => exact absurd ((futureDrop_spec f v.state).1.mp h) hne
+    simp only [hd, hr, ↓reduceIte, Bool.false_eq_true] at hstep
+    obtain ⟨rfl, _⟩ := Prod.mk.inj (Option.some.inj hstep)
+    exact ⟨by simp, by simp, hk⟩
+  · simp only [hd, ↓reduceIte, Bool.false_eq_true] at hstep
+    obtain ⟨rfl, _⟩ := Prod.mk.inj (Option.some.inj hstep)
+    exact ⟨by simp, by simp, hk⟩
+
+/-- the flag is raised in the critical section before the queue is marked `waitingForPoll` for this future -/
+theorem wfp_preceded_by_draining (s s' : State) (a f l q : Nat) (act : Act) (o : Obs) (fu : Fut)
+    (ha : s.acts[a]? = some act) (hc : act.child = none) (hpc : act.pc = .dqStore f l q)
+    (hf : s.futs[f]? = some fu) (hstep : stepAct s a = some (s', o)) :
+    ∃ fu', s'.futs[f]? = some fu' ∧ fu'.draining = true ∧ fu'.q = fu.q ∧ (s'.pcAt a) = .dqSetWfp f l q := by
+  unfold stepAct at hstep
+  simp only [ha, hc, hpc, hf, Option.isSome_none, Bool.false_eq_true, ↓reduceIte] at hstep
+  obtain ⟨rfl, _⟩ := Prod.mk.inj (Option.some.inj hstep)
+  have hlt : f < s.futs.length := lt_of_getElem?_some hf
+  refine ⟨{ fu with waker := some (.task act.thread), draining := true }, by simp [State.setFut, hlt], rfl, rfl, ?_⟩
+  have : a < s.acts.length := lt_of_getElem?_some ha
+  simp [pcAt_goto, this]
 
 end Desync.C07
